@@ -66,7 +66,9 @@ let slit s = ELit (LStr (bs s))
 
 let str_pool = [| "a"; "str"; ""; "it's"; "say \"hi\""; "a\\b"; "}}"; "%}"; "{{ x }}"; "a b"; "0"; "12"; "x#y";
                   "tab\there"; "\xc3\xa9t\xc3\xa9"; "line\nbreak"; "Hello"; "st"; "tr"; "1.0"; "-"; "a,b"; "(x)"; "?:";
-                  "\\n"; "'"; "\""; "}"; "{#"; "\\'x"; "a\\"; "\\"; "two\\\\"; "q'\\" |]
+                  "\\n"; "'"; "\""; "}"; "{#"; "\\'x"; "a\\"; "\\"; "two\\\\"; "q'\\";
+                  (* a quote of the other kind ahead of irregular whitespace inside the literal *)
+                  "it's  two"; "say \"hi\"  now"; "o'clock\tsharp"; "it's\nline two"; "x'  '  y"; "a \"b  c"; "don't   stop  "; "  'lead" |]
 
 let gen_lit_int r =
   ilit (wpick r [ (8, rint r 10); (3, rint r 100); (1, 0); (1, 1); (1, 2); (1, 9007199254740991);
@@ -268,12 +270,23 @@ let variants r (e : expr) : variant list =
     fun n -> let i = int_of_nat n in
              if i > 0 && (Hashtbl.hash (salt, i)) mod 3 = 0 then bs " " else c n in
   let salt = rint r 1000000 in
-  [ mk "min-single" pp_px_min sq single;
-    mk "full-single" pp_px_full sq single;
-    mk "min-compact" pp_px_min sq (compact sq);
-    mk "full-compact" pp_px_full dq (compact dq);
-    mk "min-wide-dq" pp_px_min dq (wide salt);
-    mk "mixed-sparse" (px_mixed salt) sq (sparse salt sq) ]
+  let base =
+    [ mk "min-single" pp_px_min sq single;
+      mk "full-single" pp_px_full sq single;
+      mk "min-compact" pp_px_min sq (compact sq);
+      mk "full-compact" pp_px_full dq (compact dq);
+      mk "min-wide-dq" pp_px_min dq (wide salt);
+      mk "mixed-sparse" (px_mixed salt) sq (sparse salt sq) ] in
+  (* the verified printer escapes both kinds of quote in every literal; a quote of the other kind needs no backslash:
+     the same spellings with those backslashes taken out (unverified glue: the expected tree is still the model
+     parser's reading of the text) *)
+  let unescape_foreign (x : variant) (foreign : string) (tag : string) : variant list =
+    let pat = "\\" ^ foreign in
+    if Str_compat.contains x.src pat then [ { x with style = x.style ^ tag; src = Str_compat.replace_all x.src pat foreign } ] else [] in
+  base
+  @ unescape_foreign (List.nth base 4) "'" "-raw-apostrophe"
+  @ unescape_foreign (List.nth base 3) "'" "-raw-apostrophe"
+  @ unescape_foreign (List.nth base 0) "\"" "-raw-double-quote"
 
 (* a comma outside [] and {} but inside (): tokenizeObjectContents, which splits the object literal of
    include ... with {...} at top-level commas, does not track parentheses *)
@@ -433,6 +446,9 @@ let fixed_trees : (expr * bool) list =
     EBin (BAnd, v "and", EBin (BOr, v "or", v "in")), false;
     EArr [ EHash [ (slit "a", EHash [ (slit "b", ilit 1) ]) ] ], true;
     EAttr (EModCall (v "m", bs "f", [ ilit 1 ]), bs "g"), false;
+    slit "it's  two", false; slit "say \"hi\"  now", false; slit "o'clock\tsharp", false; slit "it's\nline two", false;
+    EBin (BConcat, EBin (BConcat, slit "it's", slit "  "), slit "x"), false; EFilter (slit "o'clock  sharp", bs "length", []), false;
+    EBin (BEq, slit "don't   stop", v "s"), false; ECond (v "yes", slit "a \"b  c", slit "  'lead"), false;
     slit "}}", false;
     slit "it's \"q\" a\\b", false ]
 
